@@ -55,12 +55,12 @@ Ltac bool_cases :=
          | H : context [if ?b then _ else _] |- _ => destruct b eqn:?
          end.
 
-Lemma sd_rel_step : forall st s e i e', sd_rel st s e -> sd_env_next e i = Some e' ->
+Lemma sd_rel_step_plain : forall st s e i e', sd_rel st s e -> sd_env_plain e i = Some e' ->
   sd_rel (sd_next true st i) (ssd_next s i) e'.
 Proof.
   intros [fsm w0 w1 out rcv] [cur sout srcv] e i e' (Ho & Hr & H) Henv.
   cbn [d_fsm d_w0 d_w1 d_out d_rcv s_cur s_out s_rcv] in *. subst sout srcv.
-  unfold sd_env_next in Henv. unfold sd_rel, sd_next, ssd_next.
+  unfold sd_env_plain, sd_env_core in Henv. unfold sd_rel, sd_next, ssd_next.
   cbn [d_fsm d_w0 d_w1 d_out d_rcv s_cur s_out s_rcv].
   destruct (sd_full i) eqn:Ef.
   - (* a full word *)
@@ -133,6 +133,36 @@ Proof.
            ++ subst e. inversion Henv; subst e'. repeat split.
         -- destruct H as [Hc He]. subst e. inversion Henv; subst e'. repeat split; assumption.
         -- destruct H as [Hc He]. subst e. inversion Henv; subst e'. repeat split; assumption.
+Qed.
+
+(* a word of the packet together with rx_bad: the packet is aborted in that cycle *)
+Lemma sd_rel_step_abort : forall st s e i e', sd_rel st s e -> sd_word i = true -> sd_bad i = true ->
+  sd_good i = false -> sd_env_core e i = Some e' ->
+  sd_rel (sd_next true st i) (ssd_next s i) E0.
+Proof.
+  intros [fsm w0 w1 out rcv] [cur sout srcv] e i e' (Ho & Hr & H) Ew Eb Eg Henv.
+  cbn [d_fsm d_w0 d_w1 d_out d_rcv s_cur s_out s_rcv] in *. subst sout srcv.
+  unfold sd_env_core in Henv. rewrite Ew in Henv.
+  unfold sd_rel, sd_next, ssd_next. cbn [d_fsm d_w0 d_w1 d_out d_rcv s_cur s_out s_rcv].
+  rewrite Ew, Eb, Eg. cbn [negb andb orb].
+  destruct fsm.
+  - rewrite !andb_false_r. cbn [d_fsm d_out d_rcv s_cur s_out s_rcv]. repeat split.
+  - cbn [d_fsm d_out d_rcv s_cur s_out s_rcv]. repeat split.
+  - destruct H as [_ He]. subst e. discriminate.
+Qed.
+
+Lemma sd_rel_step : forall st s e i e', sd_rel st s e -> sd_env_next e i = Some e' ->
+  sd_rel (sd_next true st i) (ssd_next s i) e'.
+Proof.
+  intros st s e i e' R Henv. unfold sd_env_next in Henv.
+  destruct (sd_word i) eqn:Ew; destruct (sd_good i) eqn:Eg; destruct (sd_bad i) eqn:Eb; cbn [andb orb] in Henv;
+    try discriminate.
+  - destruct (sd_env_core e i) as [e0|] eqn:Ec; [|discriminate]. inversion Henv; subst e'.
+    apply (sd_rel_step_abort st s e i e0); assumption.
+  - apply (sd_rel_step_plain st s e); [exact R|]. unfold sd_env_plain. rewrite Ew, Eg, Eb. exact Henv.
+  - apply (sd_rel_step_plain st s e); [exact R|]. unfold sd_env_plain. rewrite Ew, Eg, Eb. exact Henv.
+  - apply (sd_rel_step_plain st s e); [exact R|]. unfold sd_env_plain. rewrite Ew, Eg, Eb. exact Henv.
+  - apply (sd_rel_step_plain st s e); [exact R|]. unfold sd_env_plain. rewrite Ew, Eg, Eb. exact Henv.
 Qed.
 
 (* The fixed decoder equals the specification on every environment-respecting input history. *)
